@@ -54,6 +54,9 @@ def cases(rng, tier):
     out += mc.connection_corpus()
     # one long outage, on the real ClientService as the client constructs it: it must keep trying
     out.append(dict(kind="outage", failures=3000 if tier == "quick" else 20000))
+    # long sessions: more peer phases than any plausible "window of recent phases", then a reconnect with a full replay
+    for nlong, rec in ([(12, 1), (140, 1), (300, 2)] if tier == "quick" else [(12, 1), (70, 3), (140, 1), (300, 2), (700, 2), (1100, 1)]):
+        out.append(dict(kind="long", n=nlong, reconnects=rec, burst=7))
     for _ in range(n):
         out.append(dict(seed=rng.randrange(10**9), n=rng.choice([60, 120, 200]), profile=rng.choice(["drops", "drops", "late-peer", "allocate", "input"])))
     m = 50 if tier == "quick" else 1500
@@ -312,6 +315,63 @@ def gen_drained_comp(case):
     return ops, sends, peers
 
 
+def run_long(case):
+    """A LONG session, scripted: the key is established, the peer sends `n` messages and all arrive; then the receiver's
+    connection is lost and re-made (an honest server replays the WHOLE mailbox on the re-open: pake, version and all `n`
+    records); then one more message each way.  Whatever the client remembers about what it has processed must not be a
+    window: received == sent, each once, nothing internal fails, nobody closes."""
+    viol = []
+    n = case["n"]
+    with World(seed=case.get("seed", 0)) as W:
+        cl = [W.add_client(delegated=True), W.add_client(delegated=bool(case.get("deleg1", True)))]
+        code = "9-drumbeat-uproot"
+        for ci in (0, 1):
+            W.do(["api", ci, "set_code", code])
+            W.do(["open", ci])
+        W.settle()
+        sent = [[], []]
+        for i in range(n):
+            body = "%04x" % i
+            W.do(["api", 1, "send", body])
+            sent[1].append(body)
+            if i % max(1, case.get("burst", 1)) == 0:
+                W.settle()
+        W.settle()
+        for k in range(case.get("reconnects", 1)):
+            who = 0 if k % 2 == 0 else 1
+            if cl[who].conn is not None:
+                W.do(["drop", who])
+            W.do(["open", who])
+            W.settle()
+            for ci in (0, 1):
+                body = "ff%02x%02x" % (ci, k)
+                W.do(["api", ci, "send", body])
+                sent[ci].append(body)
+            W.settle()
+        for ci in (0, 1):
+            c = cl[ci]
+            got = [v for nm, v in c.events if nm == "message"]
+            want = sent[1 - ci]
+            if got != want:
+                if got == want[:len(got)]:
+                    viol.append(("message-lost", f"long session ({n} messages, then a reconnect): client {ci} received {len(got)} of {len(want)}"))
+                else:
+                    bad = next((i for i in range(min(len(got), len(want))) if got[i] != want[i]), min(len(got), len(want)))
+                    viol.append(("message-repeated-or-reordered", f"long session ({n} messages, then a reconnect): client {ci} received "
+                                 f"{len(got)} messages, the peer sent {len(want)}; first difference at #{bad}: {got[bad:bad + 3]} vs {want[bad:bad + 3]}"))
+            names = [nm for nm, v in c.events]
+            for once in ("code", "key", "verifier", "versions"):
+                k = names.count(once)
+                if k != 1 and not (not c.delegated and once in ("key", "verifier", "versions", "code")):
+                    viol.append((("event-lost:" if k == 0 else "event-repeated:") + once,
+                                 f"long session: client {ci}: {once} notified {k} times"))
+            if "closed" in names:
+                viol.append(("closed-itself", f"long session ({n} messages, then a reconnect): client {ci} closed itself: {c.events[-1]}"))
+            for ent in c.internal:
+                viol.append(("internal:" + ent[0], f"long session ({n} messages, then a reconnect): internal failure {ent}"))
+    return Result([], [], viol, ["long:n=%d" % n, "long:reconnects=%d" % case.get("reconnects", 1)], True)
+
+
 def run_drained_comp(case):
     from . import c03
     ops, sends, peers = gen_drained_comp(case)
@@ -557,6 +617,8 @@ def run_case(case):
         return run_pair(case)
     if case.get("kind") == "drained":
         return run_drained(case)
+    if case.get("kind") == "long":
+        return run_long(case)
     if case.get("kind") == "drained-comp":
         return run_drained_comp(case)
     if "ops" in case:
